@@ -109,6 +109,25 @@ def gen_pair(rng, idx):
     qcomp = rng.choice(enabled)[1][0]
     other = rng.randrange(NCOMP)
 
+    # a second query with two or three cfg-decorated parameters carrying DIFFERENT predicates (the query-side macro
+    # chain has to deliver each truth value to its own parameter), run through three of the query macros
+    mq = None
+    for _ in range(20):
+        base_n, base_cs = rng.choice(enabled)
+        base = rng.choice(base_cs)
+        k = rng.randint(2, min(3, len(pool)))
+        preds = rng.sample(pool, k)
+        if len(set(t for _, t in preds)) < 2 and rng.random() < 0.8:
+            continue
+        extra = [rng.randrange(NCOMP) for _ in range(k)]
+        kept = [base] + [c for c, (_, t) in zip(extra, preds) if t]
+        if len(set(kept)) != len(kept) or len(set([base] + extra)) != k + 1:
+            continue
+        if not any(all(c in cs for c in kept) for _, cs in enabled):
+            continue
+        mq = (base, list(zip(extra, preds)), kept)
+        break
+
     def report(deco):
         L = ['    pub fn report() -> Vec<(String, i64)> {', '        let mut out: Vec<(String, i64)> = Vec::new();',
              '        let mut world = EcsWorld::default();']
@@ -134,6 +153,15 @@ def gen_pair(rng, idx):
                 return None     # the erased query would not compile (no match / same component twice): skip the query for this pair
         else:
             L.append('        { let mut n = 0i64; ecs_iter!(world, |_x: &%s| { n += 1; }); out.push(("cfgquery".to_string(), n)); }' % CNAME[qcomp])
+        if mq is not None:
+            base, extras, kept = mq
+            if deco:
+                params = '_x: &%s' % CNAME[base] + ''.join(', #[cfg(%s)] _y%d: &%s' % (p, j, CNAME[c]) for j, (c, (p, _)) in enumerate(extras))
+            else:
+                params = ', '.join('_x%d: &%s' % (j, CNAME[c]) for j, c in enumerate(kept))
+            L.append('        { let mut n = 0i64; ecs_iter!(world, |%s| { n += 1; }); out.push(("multicfg iter".to_string(), n)); }' % params)
+            L.append('        { let mut n = 0i64; ecs_iter_borrow!(world, |%s| { n += 1; }); out.push(("multicfg iter_borrow".to_string(), n)); }' % params)
+            L.append('        { let mut n = 0i64; ecs_iter_destroy!(world, |%s| { n += 1; EcsStepDestroy::Continue }); out.push(("multicfg iter_destroy".to_string(), n)); }' % params)
         L += ['        out', '    }']
         return '\n'.join(L)
 
